@@ -42,6 +42,9 @@ var Profiles = map[string]Profile{
 	"single": {Types: []string{"T1", "T2", "T3", "T4"}, Ifaces: []string{"I1", "I2", "I12"}, Names: []string{"", "", "a", "b"}, Subs: []string{"", "", "s", "t"},
 		MaxIn: 1, MaxOut: 2, MaxTIn: 3, MaxInputs: 3, MaxConvs: 5, Forms: []string{"pos", "struct", "ptr", "built"}, FailProb: 0.05, OnceProb: 0.1,
 		MultiMax: 0, Modes: []string{"call"}, TargetOuts: 1},
+	"namedsingle": {Types: []string{"T1", "T2", "T3", "T4"}, Names: []string{"", "a", "a", "b", "b"}, Subs: []string{"", "", "", "s"},
+		MaxIn: 1, MaxOut: 1, MaxTIn: 2, MaxInputs: 2, MaxConvs: 7, Forms: []string{"struct", "pos"}, FailProb: 0, OnceProb: 0,
+		MultiMax: 0, Modes: []string{"call"}},
 	"multi": {Types: []string{"T1", "T2", "T3", "T4", "T5"}, Ifaces: []string{"I1"}, Names: []string{"", "", "", "a"}, Subs: []string{"", "", "", "s"},
 		MaxIn: 3, MaxOut: 2, MaxTIn: 2, MaxInputs: 3, MaxConvs: 4, Forms: []string{"pos", "struct", "ptr", "built"}, FailProb: 0.05, OnceProb: 0.1,
 		MultiMax: -1, Modes: []string{"call"}, TargetOuts: 1},
